@@ -5,7 +5,7 @@
 //      crates/model/src/utils.rs           :: usd_to_market_token_amount, market_token_amount_to_usd   (C01 units, re-proved here)
 //      crates/model/src/action/withdraw.rs :: Withdrawal::output_amounts, WithdrawParams accessors
 //      crates/model/src/pool/balance.rs    :: BalanceExt::{long_usd_value, short_usd_value}
-//      NOT covered: Deposit::execute / execute_deposit (fees, impact, pool deltas) and LiquidityMarketExt::pool_value.
+//      The deposit action itself: verus/C06_deposit.rs.
 // =================================================================================================
 verus! {
 //@struct crates/model/src/market/base.rs :: pub enum PnlFactorKind ::
